@@ -1,4 +1,6 @@
 pub mod c03;
+pub mod c14;
+pub mod c20;
 pub mod dbg_checks;
 
 use crate::engine::Check;
@@ -11,8 +13,10 @@ pub fn by_id(id: &str) -> Option<&'static dyn Check> {
         "C11" => Some(&dbg_checks::C11),
         "C12" => Some(&dbg_checks::C12),
         "C13" => Some(&dbg_checks::C13),
+        "C14" => Some(&c14::C14),
         "C15" => Some(&dbg_checks::C15),
         "C16" => Some(&dbg_checks::C16),
+        "C20" => Some(&c20::C20),
         _ => None,
     }
 }
